@@ -613,3 +613,167 @@ def crash_stage(rep, work, name, constants, systems, every=1, timeout=1800):
     log("stage %-28s tlc %d/%d; %d crash points (%d post / %d pre), %d failures" % (
         name, res.distinct, res.generated, summ["crash_points"], summ["ended_in_post_state"], summ["ended_in_pre_state"], summ["n_failures"]))
     return summ
+
+
+# ---------------------------------------------------------------------------
+# C07: concurrent histories, linearizability decided by TLC (TraceConc.tla)
+
+def split_runs(path):
+    runs, cur = [], None
+    with open(path) as f:
+        for i, line in enumerate(f, 1):
+            if line.startswith('{"t":"reset"'):
+                cur = [i, [line]]
+                runs.append(cur)
+            elif cur is not None:
+                cur[1].append(line)
+    return runs
+
+
+def validate_conc(work, trace, witness=False, timeout=600):
+    """Returns (verdict, at): verdict in accepted | rejected | inconclusive."""
+    if witness:
+        cfg = "TraceConc.w.cfg"
+        write_cfg(work.path(cfg), {}, invariants=["NotDone"])
+        os.environ["TRACE"] = os.path.abspath(trace)
+        res = run_tlc(work, "TraceConc.tla", cfg, workers=1, timeout=timeout,
+                      java_props=["-Dtlc2.tool.queue.IStateQueue=StateDeque"])
+        text = "\n".join(res.log)
+        if "Invariant NotDone is violated" in text:
+            return "accepted", None, res
+        if "Model checking completed. No error has been found." in text:
+            return "rejected", None, res
+        return "inconclusive", None, res
+    cfg = "TraceConc.cfg"
+    write_cfg(work.path(cfg), {}, constraint="HighWater", postcondition="Accepted")
+    os.environ["TRACE"] = os.path.abspath(trace)
+    res = run_tlc(work, "TraceConc.tla", cfg, workers=1, timeout=timeout)
+    text = "\n".join(res.log)
+    m = re.search(r'"REJECTED-AT",\s*(\d+),\s*(\d+)', text)
+    if m:
+        return "rejected", int(m.group(1)), res
+    if "Model checking completed. No error has been found." in text and res.rc == 0:
+        return "accepted", None, res
+    return "inconclusive", None, res
+
+
+def conc_stage(rep, work, name, systems, clients, runs, ops, keys, gated, race=False, witness=False, timeout=900):
+    tag = re.sub(r"\W", "_", name)
+    trace = work.path("conc.%s.ndjson" % tag)
+    out = work.path("conc.%s.json" % tag)
+    binary = HARNESS + ("-race" if race else "")
+    cmd = [binary, "conc", "--systems", ",".join(systems), "--seed", str(rep.seed), "--runs", str(runs),
+           "--clients", ",".join(str(c) for c in clients), "--ops", str(ops), "--keys", str(keys),
+           "--trace", trace, "--out", out, "--gated=%s" % ("true" if gated else "false")]
+    env = dict(os.environ, GORACE="halt_on_error=0 history_size=3")
+    p = subprocess.run(cmd, capture_output=True, text=True, env=env, timeout=timeout)
+    err = p.stderr
+    os.makedirs(os.path.join(VERIF, "replays"), exist_ok=True)
+    import hashlib
+    if "DATA RACE" in err:
+        # the race detector is the observation channel for the race clause
+        first = err[err.index("WARNING: DATA RACE"):][:6000]
+        in_repo = "/repo/" in first or "gofakes3" in first
+        if in_repo:
+            rp = os.path.join(VERIF, "replays", "C07-race-%s.txt" % hashlib.sha1(first.encode()).hexdigest()[:16])
+            with open(rp, "w") as f:
+                f.write(first)
+            fid = classify(rep.prop, ",".join(systems), "Race", first)
+            if fid:
+                rep.known[fid] = rep.known.get(fid, 0) + 1
+            else:
+                rep.violations.append((rp, "data race reported by the Go race detector:\n" + "\n".join(first.splitlines()[:14])))
+    if p.returncode != 0:
+        if "fatal error:" in err or "panic:" in err:
+            first = err[max(0, err.find("fatal error:")):][:4000]
+            rp = os.path.join(VERIF, "replays", "C07-fatal-%s.txt" % hashlib.sha1(first.encode()).hexdigest()[:16])
+            with open(rp, "w") as f:
+                f.write(first)
+            rep.violations.append((rp, "the server code died under concurrent requests: " + first.splitlines()[0]))
+            return
+        raise Infra("harness conc failed (rc=%s):\n%s" % (p.returncode, err[-3000:]))
+    with open(out) as f:
+        summ = json.load(f)
+    for pr in summ.get("problems") or []:
+        fid = classify(rep.prop, ",".join(systems), "Deadlock", pr)
+        if fid:
+            rep.known[fid] = rep.known.get(fid, 0) + 1
+        else:
+            rp = os.path.join(VERIF, "replays", "C07-hang-%s.txt" % hashlib.sha1(pr.encode()).hexdigest()[:16])
+            with open(rp, "w") as f:
+                f.write(pr)
+            rep.violations.append((rp, pr))
+    cur = trace
+    rejected, inconclusive = [], 0
+    vstates = vtrans = 0
+    for attempt in range(8):
+        if not os.path.exists(cur) or os.path.getsize(cur) == 0:
+            break
+        verdict, at, res = validate_conc(work, cur, witness=witness, timeout=timeout)
+        vstates += res.distinct
+        vtrans += res.generated
+        if verdict == "accepted":
+            break
+        runs_ = split_runs(cur)
+        if verdict == "inconclusive" or at is None:
+            # decide run by run
+            keep = []
+            for first, lines in runs_:
+                single = work.path("conc.%s.single.ndjson" % tag)
+                with open(single, "w") as f:
+                    f.writelines(lines)
+                v, _, r2 = validate_conc(work, single, witness=witness, timeout=min(timeout, 240))
+                vstates += r2.distinct
+                vtrans += r2.generated
+                if v == "rejected":
+                    rejected.append(lines)
+                elif v == "inconclusive":
+                    inconclusive += 1
+            break
+        bad = None
+        for first, lines in runs_:
+            if first <= at < first + len(lines):
+                bad = (first, lines)
+        if bad is None:
+            bad = runs_[-1]
+        # confirm on the run alone (exact, breadth-first)
+        single = work.path("conc.%s.single.ndjson" % tag)
+        with open(single, "w") as f:
+            f.writelines(bad[1])
+        v, at2, r2 = validate_conc(work, single, witness=False, timeout=min(timeout, 300))
+        if v == "rejected":
+            rejected.append((bad[1], at2))
+        elif v == "inconclusive":
+            inconclusive += 1
+        nxt = work.path("conc.%s.%d.ndjson" % (tag, attempt))
+        with open(nxt, "w") as f:
+            for first, lines in runs_:
+                if first != bad[0]:
+                    f.writelines(lines)
+        cur = nxt
+    vr = TLCResult()
+    vr.distinct, vr.generated = vstates, vtrans
+    rep.add_tlc(name, vr)
+    rep.traces += summ["runs"] - len(rejected) - inconclusive
+    rep.stages.append({"stage": name, "runs": summ["runs"], "events": summ["events"], "per_system": summ.get("per_system"),
+                       "clients": list(clients), "race_detector": race, "rejected": len(rejected), "inconclusive": inconclusive})
+    if len(rep.samples) < 2 and os.path.exists(trace):
+        with open(trace) as f:
+            rep.samples.append([json.loads(x) for x in f.readlines()[:6]])
+    for item in rejected:
+        lines, at2 = item if isinstance(item, tuple) else (item, None)
+        head = json.loads(lines[0])
+        desc = "history of run on %s (%s) is not linearizable" % (head.get("sys"), head.get("scenario") or "free-running clients")
+        if at2:
+            evs = lines[max(0, at2 - 3):at2 + 1]
+            desc += "; no linearization explains event %d: %s" % (at2, " | ".join(x.strip()[:200] for x in evs))
+        fid = classify(rep.prop, head.get("sys", ""), "Conc:" + (head.get("scenario") or "free"), desc)
+        if fid:
+            rep.known[fid] = rep.known.get(fid, 0) + 1
+            continue
+        rp = os.path.join(VERIF, "replays", "C07-conc-%s.ndjson" % hashlib.sha1("".join(lines).encode()).hexdigest()[:16])
+        with open(rp, "w") as f:
+            f.writelines(lines)
+        rep.violations.append((rp, desc))
+    log("stage %-28s %d runs / %d events on %s clients %s race=%s: rejected %d, inconclusive %d" % (
+        name, summ["runs"], summ["events"], ",".join(systems), clients, race, len(rejected), inconclusive))
